@@ -1,17 +1,32 @@
-"""Regenerate every coq/Gen/*.v file from the current source ($VERIF_REPO); used by setup.sh."""
+"""Regenerate every coq/Gen/*.v file from the current source ($VERIF_REPO).
+
+Used by setup.sh and at the start of EVERY check: a property file may depend on several generated files (C06's
+evaluator tie uses the generated subsequence functions), so all of them must reflect the tree under test, not
+whatever an earlier run against another tree left behind.  A translator that aborts (source outside the handled
+subset) leaves its file as it is; the property that owns the file reports that through its own pre_build."""
 import importlib
 import os
 from pathlib import Path
 
+DRIVERS = ("cli_table", "tikz_templates", "subseq_gen", "rmq_gen", "dsu_gen", "entry_gen", "eval_gen")
 
-def regenerate():
+
+def regenerate(strict=True):
+    """returns the list of (driver, message) that aborted (empty when strict, which raises instead)"""
     repo = Path(os.environ.get("VERIF_REPO", "/repo"))
-    for name in ("cli_table", "tikz_templates", "subseq_gen", "rmq_gen", "dsu_gen", "entry_gen"):
+    aborted = []
+    for name in DRIVERS:
         try:
             mod = importlib.import_module(f"translator.{name}")
         except ModuleNotFoundError:
             continue
-        (getattr(mod, 'regenerate', None) or getattr(mod, 'generate'))(repo)
+        try:
+            (getattr(mod, 'regenerate', None) or getattr(mod, 'generate'))(repo)
+        except Exception as e:  # noqa: BLE001 - TranslatorAbort or a parse error of a broken source file
+            if strict:
+                raise
+            aborted.append((name, f"{type(e).__name__}: {e}"[:300]))
+    return aborted
 
 
 if __name__ == "__main__":
